@@ -32,7 +32,8 @@ BACKENDS = ("numpy", "numpy.numpylike")
 def atom_str(a):
     if a[0] == "#":
         return f"[{a[1]}]"
-    return f"[{a[0]}]" if a[1] else a[0]
+    name = a[0].rstrip("'")
+    return f"[{name}]" if a[1] else name
 
 
 def expr_str(e):
@@ -87,10 +88,14 @@ def gen_case(rng, small=False):
     sizes = {}
     tv = ["a", "b"][: rng.choice([0, 1, 1, 2])]
     tb = ["h", "w"][: rng.choice([1, 1, 2])]
+    if len(tb) == 2 and rng.random() < 0.2:
+        # the same axis name at two bracketed positions of the target (e.g. `b [h h] c`, `[h] a [h]`): internally the
+        # second occurrence is the distinct atom "h'" (printed as "h", same length), so that layouts stay positional
+        tb = ["h", "h'"]
     for n in tv:
         sizes[n] = rng.choice([1, 2, 2, 3] if not small else [1, 2])
     for n in tb:
-        sizes[n] = rng.choice([1, 2, 3, 4] if not small else [1, 2, 3])
+        sizes[n] = sizes["h"] if n == "h'" else rng.choice([1, 2, 3, 4] if not small else [1, 2, 3])
     order = tv + tb
     rng.shuffle(order)
     # keep the bracketed axes in the order h, w (the coordinate components address them in expression order)
@@ -319,7 +324,7 @@ def call_real(case, mode, backend, as_float=False):
         t = t.astype(np.float64) + 0.5
         u = u.astype(np.float64) + 0.25
     args = [t] + [c.copy() for c in case["cdata"]] + [u]
-    return np.asarray(f(description(case), *args, backend=backend, **case["sizes"]))
+    return np.asarray(f(description(case), *args, backend=backend, **{k: v for k, v in case["sizes"].items() if not k.endswith("'")}))
 
 
 def is_rejection(e):
@@ -782,7 +787,7 @@ def run(ctx):
             einx = einx_mod()
             ramp = np.arange(case["tdata"].size, dtype=np.int64).reshape(case["tdata"].shape)
             try:
-                got = np.asarray(einx.get_at(get_description(case, names), ramp, *[c.copy() for c in case["cdata"]], backend="numpy", **case["sizes"])).reshape(-1).tolist()
+                got = np.asarray(einx.get_at(get_description(case, names), ramp, *[c.copy() for c in case["cdata"]], backend="numpy", **{k: v for k, v in case["sizes"].items() if not k.endswith("'")})).reshape(-1).tolist()
             except Exception as e:
                 got = f"{type(e).__name__}"
             ctx.count("ravel_kernel_compared")
